@@ -274,4 +274,17 @@ func init() {
 				BoundT: "1-2 control senders (ping, pong)"},
 		},
 	})
+	reg(&propSpec{
+		ID:   "C18",
+		Rule: "Harnesses in harness/logger/c18.go: engine threads creating contexts concurrently (all schedules, vector-clock race detection on the id counter); aliasing; which id each formatting path selects per kind of context.",
+		Assumptions: append([]string{
+			"claimed: id uniqueness under concurrency, aliasing, and the id selected for the prefix (the arguments handed to the formatter); NOT claimed: that each call emits exactly one complete non-interleaved line (log.Logger's mutex, fmt, time formatting and os.File are outside the engine)",
+			"context.WithValue/Value are interpreted from source; reflectlite.TypeOf(key).Comparable() is answered from go/types; os.Getpid is a fixed value",
+		}, commonAssumptions...),
+		Harnesses: []harnessSpec{
+			{Pkg: "logger", Func: "HarnessC18_Unique", Race: true, Labels: []string{"unique"}, Bound: "2 goroutines (thorough 2-3), each creating 1-2 contexts; all schedules; race detection"},
+			{Pkg: "logger", Func: "HarnessC18_Alias", Labels: []string{"alias-fresh", "alias-nil", "alias-src"}, Bound: "parent with or without id; source with id / without id / nil"},
+			{Pkg: "logger", Func: "HarnessC18_Prefix", Labels: []string{"prefix"}, Bound: "context kinds {nil, Cid() object, context.Context with id, context.Context without id} x {Println-style, Printf-style}; ids from {0,7,1000,-3}"},
+		},
+	})
 }
